@@ -46,11 +46,21 @@ func (r Ring) Neg(p1, p2 Poly) {
 
 // NewRNSScalar creates a new Scalar value (i.e., a degree-0 polynomial) in the RingQP.
 func (r Ring) NewRNSScalar() ring.RNSScalar {
-	modlen := r.RingQ.ModuliChainLength()
+	modlen := r.scalarQLen()
 	if r.RingP != nil {
-		modlen += r.RingP.ModuliChainLength()
+		modlen += r.RingP.Level() + 1
 	}
 	return make(ring.RNSScalar, modlen)
+}
+
+// scalarQLen returns the number of entries of an RNS scalar that belong to RingQ:
+// scalars have one entry per modulus at the level of the ring (as the ones returned by
+// NewRNSScalarFromUInt64 and by the RNS scalars methods of RingQ and RingP).
+func (r Ring) scalarQLen() int {
+	if r.RingQ == nil {
+		return 0
+	}
+	return r.RingQ.Level() + 1
 }
 
 // NewRNSScalarFromUInt64 creates a new Scalar in the RingQP initialized with value v.
@@ -67,7 +77,7 @@ func (r Ring) NewRNSScalarFromUInt64(v uint64) ring.RNSScalar {
 
 // SubRNSScalar subtracts s2 to s1 and stores the result in sout.
 func (r Ring) SubRNSScalar(s1, s2, sout ring.RNSScalar) {
-	qlen := r.RingQ.ModuliChainLength()
+	qlen := r.scalarQLen()
 	if r.RingQ != nil {
 		r.RingQ.SubRNSScalar(s1[:qlen], s2[:qlen], sout[:qlen])
 	}
@@ -79,7 +89,7 @@ func (r Ring) SubRNSScalar(s1, s2, sout ring.RNSScalar) {
 
 // MulRNSScalar multiplies s1 and s2 and stores the result in sout.
 func (r Ring) MulRNSScalar(s1, s2, sout ring.RNSScalar) {
-	qlen := r.RingQ.ModuliChainLength()
+	qlen := r.scalarQLen()
 	if r.RingQ != nil {
 		r.RingQ.MulRNSScalar(s1[:qlen], s2[:qlen], sout[:qlen])
 	}
@@ -242,7 +252,7 @@ func (r Ring) MulCoeffsMontgomeryThenAdd(p1, p2, p3 Poly) {
 // MulRNSScalarMontgomery multiplies p with a scalar value expressed in the CRT decomposition.
 // It assumes the scalar decomposition to be in Montgomery form.
 func (r Ring) MulRNSScalarMontgomery(p Poly, scalar []uint64, pOut Poly) {
-	scalarQ, scalarP := scalar[:r.RingQ.ModuliChainLength()], scalar[r.RingQ.ModuliChainLength():]
+	scalarQ, scalarP := scalar[:r.scalarQLen()], scalar[r.scalarQLen():]
 	if r.RingQ != nil {
 		r.RingQ.MulRNSScalarMontgomery(p.Q, scalarQ, pOut.Q)
 	}
@@ -254,7 +264,7 @@ func (r Ring) MulRNSScalarMontgomery(p Poly, scalar []uint64, pOut Poly) {
 // Inverse computes the modular inverse of a scalar a expressed in a CRT decomposition.
 // The inversion is done in-place and assumes that a is in Montgomery form.
 func (r Ring) Inverse(scalar ring.RNSScalar) {
-	scalarQ, scalarP := scalar[:r.RingQ.ModuliChainLength()], scalar[r.RingQ.ModuliChainLength():]
+	scalarQ, scalarP := scalar[:r.scalarQLen()], scalar[r.scalarQLen():]
 	if r.RingQ != nil {
 		r.RingQ.Inverse(scalarQ)
 	}
